@@ -143,6 +143,17 @@ spec fn cond_of(c: Cell) -> Option<bool> {
 
 // What a control instruction that completed did to the machine.  Loads/stores/native calls are
 // covered by the contracts of the primitives they consist of; Resolve re-dispatches.
+// the value a literal-load instruction pushes
+pub open spec fn op_value(op: Opcode) -> Cell {
+    match op {
+        Opcode::LoadI64(x) => Cell::Int(x as i128),
+        Opcode::LoadF64(x) => Cell::Real(x),
+        Opcode::LoadStr(x) => Cell::Str(x),
+        Opcode::LoadCell(c) => c.cell(),
+        _ => Cell::Nil,
+    }
+}
+
 spec fn exec_ok(old: &State, new: &State) -> bool {
     let ip = old.ctx.ip;
     let m = old.mach();
@@ -188,15 +199,9 @@ spec fn exec_ok(old: &State, new: &State) -> bool {
             && n == (Mach { ip: jump_to(rel, ip), ls: m.ls.drop_last(), ..m }),
         // literals and variables
         Opcode::LoadNil => n == (Mach { ip: (ip + 1) as usize, ds: m.ds.push(Cell::Nil), ..m }),
-        Opcode::LoadI64(x) => n.ip == ip + 1 && n.ds.len() == m.ds.len() + 1
-            && (forall|j: int| 0 <= j < m.ds.len() ==> n.ds[j] == m.ds[j])
-            && n.rs == m.rs && n.ls == m.ls && n.ss == m.ss && n.hp == m.hp,
-        Opcode::LoadF64(x) => n.ip == ip + 1 && n.ds.len() == m.ds.len() + 1
-            && (forall|j: int| 0 <= j < m.ds.len() ==> n.ds[j] == m.ds[j])
-            && n.rs == m.rs && n.ls == m.ls && n.ss == m.ss && n.hp == m.hp,
-        Opcode::LoadStr(x) => n.ip == ip + 1 && n.ds.len() == m.ds.len() + 1
-            && (forall|j: int| 0 <= j < m.ds.len() ==> n.ds[j] == m.ds[j])
-            && n.rs == m.rs && n.ls == m.ls && n.ss == m.ss && n.hp == m.hp,
+        Opcode::LoadI64(x) => n == (Mach { ip: (ip + 1) as usize, ds: m.ds.push(Cell::Int(x as i128)), ..m }),
+        Opcode::LoadF64(x) => n == (Mach { ip: (ip + 1) as usize, ds: m.ds.push(Cell::Real(x)), ..m }),
+        Opcode::LoadStr(x) => n == (Mach { ip: (ip + 1) as usize, ds: m.ds.push(Cell::Str(x)), ..m }),
         Opcode::LoadCell(c) => n == (Mach { ip: (ip + 1) as usize, ds: m.ds.push(c.cell()), ..m }),
         Opcode::Load(cref) => cref.0 < m.hp.len()
             && n == (Mach { ip: (ip + 1) as usize, ds: m.ds.push(m.hp[cref.0 as int]), ..m }),
